@@ -102,15 +102,15 @@ CHECKS = {
         design="5-C13"),
     "C11": dict(
         engine="E2-handler",
-        technique="Coq proof (decision table of build_trigger for every argument map: iff-characterisation of each action kind, carried settings, placement, one action per kind; an uninterpretable tracepoint changes nothing else; merged response keeps all actions up to permutation) + EXHAUSTIVE in-Coq correspondence over the interacting keys",
-        text="10 Coq theorems over TriggerTable.v, for every argument map, watches and metrics: a snapshot action iff collection "
+        technique="Coq proof over functions REGENERATED from /repo/src by a fail-closed Python-ast translator (pure.py) and proved equal to the model + Coq proof (decision table of build_trigger for every argument map: iff-characterisation of each action kind, carried settings, placement, one action per kind; an uninterpretable tracepoint changes nothing else; merged response keeps all actions up to permutation) + EXHAUSTIVE in-Coq correspondence over the interacting keys",
+        text="11 Coq theorems over TriggerTable.v, for every argument map, watches and metrics: a snapshot action iff collection "
              "is not switched off (carrying log message, watches, frame/stack type), a log action iff a message is given and "
              "collection is off, one metric action with every definition iff any, a span action iff requested, every action "
              "with the tracepoint's own id/condition/fire count/fire period, at most one action per kind, location per "
              "stage/method_name/span; a response with an uninterpretable member converts as if it were absent, and what is "
              "installed at a location is (up to order) the actions of all interpretable members placed there. Tied to the "
              "code by the exhaustive 1024-row table through the real build_trigger, response lists through convert_response, "
-             "and add_custom with an unknown stage.",
+             "and add_custom with an unknown stage. Tie T2: build_trigger and the four action builders are translated from source on every run (coq/gen/PTable.v) and proved to give the model's table for EVERY argument map.",
         note="Trusted: Coq kernel+VM; harness; argument values are text; nameless method locations never match (observation, "
              "outside the statement); capture stages are not copied into the action config by the builders (observation).",
         design="5-C11"),
@@ -138,13 +138,13 @@ CHECKS = {
         design="5-C17"),
     "C03": dict(
         engine="E2-handler",
-        technique="Coq proof (location matching iff-characterisations, soundness/completeness/silence/independence of the per-event action selection, merge keeps actions up to permutation) + in-Coq correspondence with the real handler on synthetic events, poll responses and live multi-threaded programs",
-        text="10 Coq theorems over Match.v and Handler.v: a line location matches exactly the line events of that file name and line, a "
+        technique="Coq proof over functions REGENERATED from /repo/src by a fail-closed Python-ast translator (pure.py) and proved equal to the model + Coq proof (location matching iff-characterisations, soundness/completeness/silence/independence of the per-event action selection, merge keeps actions up to permutation) + in-Coq correspondence with the real handler on synthetic events, poll responses and live multi-threaded programs",
+        text="12 Coq theorems over Match.v and Handler.v: a line location matches exactly the line events of that file name and line, a "
              "named method location exactly the call events of that function name in that file, return/exception events "
              "match nothing; whatever acts at an event belongs to an installed trigger at that location with an open gate "
              "(only-when), every such action acts (when), no matching trigger means no action, each trigger contributes what "
              "it contributes alone wherever it stands, and the merge of same-location tracepoints of a response keeps every "
-             "action; in the composition (Handler.v) whatever fires was matched, permitted by its own limits and its condition held, and over any event sequence an action's statistics are those of the limiter run on the events at its own location. Tied to the code by generated trigger lists x events of all kinds, the same through convert_response, gated event sequences under a virtual clock, live programs (generator, caught exception, 3 threads) and threads overlapping inside one another's actions.",
+             "action; in the composition (Handler.v) whatever fires was matched, permitted by its own limits and its condition held, and over any event sequence an action's statistics are those of the limiter run on the events at its own location. Tied to the code by generated trigger lists x events of all kinds, the same through convert_response, gated event sequences under a virtual clock, live programs (generator, caught exception, 3 threads) and threads overlapping inside one another's actions. Tie T2: LineLocation/FunctionLocation.at_location are translated from source on every run (coq/gen/PMatch.v); C03_the_code_matches_exactly is stated over the translated code.",
         note="Trusted: Coq kernel+VM; harness; scope is the events CPython delivers to the handler; gates open (C04/C10 decide gates); "
              "effect order within one event normalised.",
         design="5-C03"),
@@ -164,32 +164,32 @@ CHECKS = {
         design="5-C15"),
     "C04": dict(
         engine="E2-handler",
-        technique="Coq proof (state invariant over all hit histories: count, spacing, window, liveness; invariant of the N-thread interleaving semantics over all schedules; unlocked discipline refuted by witness) + in-Coq correspondence under a virtual clock and forced schedules",
-        text="8 Coq theorems over Limiter.v: for every hit history and every setting (text, number, absent, unparsable -> "
+        technique="Coq proof over functions REGENERATED from /repo/src by a fail-closed Python-ast translator (pure.py) and proved equal to the model + Coq proof (state invariant over all hit histories: count, spacing, window, liveness; invariant of the N-thread interleaving semantics over all schedules; unlocked discipline refuted by witness) + in-Coq correspondence under a virtual clock and forced schedules",
+        text="11 Coq theorems over Limiter.v: for every hit history and every setting (text, number, absent, unparsable -> "
              "defaults 1/1000) at most fire_count collections unless -1, consecutive collections >= fire_period ms apart "
              "(boundary collects), none outside the window the action holds, permitted true hits do collect; for ANY number "
              "of threads and ANY schedule of their steps (check; condition; atomic claim; collect) the same bounds hold in "
              "every reachable state; the check-then-record discipline without the claim is refuted by a checked witness. "
              "Tied to the code by hit histories through the real handler under a virtual clock and by 2-4 threads parked "
-             "inside condition/watch evaluation and released in generated orders, both compared inside Coq.",
+             "inside condition/watch evaluation and released in generated orders, both compared inside Coq. Tie T2: in_window, fire, can_trigger, try_trigger are translated from source on every run (coq/gen/PLimits.v) and proved equal to the model's; C04_the_code_allows_only_within_limits / _records_iff_allowed are stated over the translated code.",
         note="Trusted: Coq kernel+VM; harness; hit times positive; numerals without blanks/underscores; atomicity of the code "
              "between two parking points is by the GIL, exercised not proved. Known finding: window arguments never reach the action.",
         design="5-C04"),
     "C10": dict(
         engine="E2-handler",
-        technique="Coq proof (gate characterisation, failing condition rejects for every error text, rejected hits keep the budget, three-scope name resolution, per-expression results) + in-Coq correspondence with real evaluate_expression / can_trigger / handler",
-        text="7 Coq theorems over Cond.v + Limiter.v: a hit collects only if limits allow and the condition's value passes "
+        technique="Coq proof over functions REGENERATED from /repo/src by a fail-closed Python-ast translator (pure.py) and proved equal to the model + Coq proof (gate characterisation, failing condition rejects for every error text, rejected hits keep the budget, three-scope name resolution, per-expression results) + in-Coq correspondence with real evaluate_expression / can_trigger / handler",
+        text="8 Coq theorems over Cond.v + Limiter.v: a hit collects only if limits allow and the condition's value passes "
              "str2bool; a condition that fails to evaluate rejects whatever its message; a rejected hit leaves the stats "
              "unchanged, so after any number of rejected hits a permitted true hit collects; names resolve in locals, then "
              "the frame's module globals, then builtins, and nowhere else; each watch has its own result and a failing one "
              "does not change the others. Tied to the code by name lookups over generated scopes (including names of the "
-             "agent's own modules), 21 values x 11 exception kinds through can_trigger, mixed histories through the handler.",
+             "agent's own modules), 21 values x 11 exception kinds through can_trigger, mixed histories through the handler. Tie T2: ActionContext.can_trigger and str2bool are translated from source on every run (coq/gen/PGate.v, PTruth.v); C10_the_code_gate is stated over the translated code.",
         note="Trusted: Coq kernel+VM; harness; CPython's eval for the expression language itself; expressions side-effect free.",
         design="5-C10"),
     "C02": dict(
         engine="E1-collector",
-        technique="Coq proof (frame description laws, entry fidelity as a step invariant of the work-list collector, children by kind) + in-Coq correspondence with real TriggerHandler/FrameCollector/VariableSetProcessor on synthetic frames + live programs with an independent recorder",
-        text="9 Coq theorems over Collector.v/Frames.v: one described frame per stack frame in order with its file, function, "
+        technique="Coq proof over functions REGENERATED from /repo/src by a fail-closed Python-ast translator (pure.py) and proved equal to the model + Coq proof (frame description laws, entry fidelity as a step invariant of the work-list collector, children by kind) + in-Coq correspondence with real TriggerHandler/FrameCollector/VariableSetProcessor on synthetic frames + live programs with an independent recorder",
+        text="11 Coq theorems over Collector.v/Frames.v: one described frame per stack frame in order with its file, function, "
              "line and class; app flag and short path per the C19 laws; frame_type selects which frames carry variables; every "
              "table entry of every reachable collector state carries its object's type name, text cut at the limit, truncation "
              "flag and identity; the text of an exact dict/list/tuple/set/frozenset is 'Size: n' with n ALL its elements, computed "
@@ -197,19 +197,19 @@ CHECKS = {
              "attributes with private-name demangling). Tied to the code by running the real handler on generated object "
              "graphs in synthetic frame chains and comparing table, frame variables, watches and frame descriptions inside "
              "Coq (1-3 tracepoints on the line, every snapshot compared); plus live generated programs under sys.settrace with an "
-             "independent reader of f_locals/f_back.",
+             "independent reader of f_locals/f_back. Tie T2: var_modifiers and parse_short_name are translated from source on every run and proved equal to the model's.",
         note="Trusted: Coq kernel+VM; harness reader (objgen.Heap) and generators; id() injective on live objects; watch "
              "values supplied by the harness in place of eval (expression evaluation is C10); time budget not hit.",
         design="5-C02"),
     "C05": dict(
         engine="E1-collector",
-        technique="Coq proof (step invariants of the work-list collector lifted over all fuel: count, string, collection, depth bounds; FIFO depth monotonicity; LIFO refuted by witness) + in-Coq correspondence with the real collector",
-        text="8 Coq theorems over Collector.v, for every heap (any width, depth, cycles), every limit setting and every fuel: "
+        technique="Coq proof over functions REGENERATED from /repo/src by a fail-closed Python-ast translator (pure.py) and proved equal to the model + Coq proof (step invariants of the work-list collector lifted over all fuel: count, string, collection, depth bounds; FIFO depth monotonicity; LIFO refuted by witness) + in-Coq correspondence with the real collector",
+        text="10 Coq theorems over Collector.v, for every heap (any width, depth, cycles), every limit setting and every fuel: "
              "variable count <= max(initial, max_variables+1); value length <= max_string_length with the truncation flag "
              "exact; list-like children <= max_collection_size; nesting depth < max_var_depth; with the FIFO work list the "
              "recording order is non-decreasing in depth and whatever is still waiting is at least as deep as everything recorded (shallower variables win), and a checked witness shows the LIFO "
              "discipline violates it. Tied to the code by evaluating the model inside Coq on the graphs the real "
-             "TriggerHandler just collected (table, frame variables, watches must be equal).",
+             "TriggerHandler just collected (table, frame variables, watches must be equal). Tie T2: truncate_string and check_var_count are translated from source on every run (coq/gen/PCollect.v).",
         note="Trusted: Coq kernel+VM; harness reader and generators; id() injective on live objects; time budget not hit.",
         design="5-C05"),
     "C06": dict(
@@ -246,12 +246,12 @@ CHECKS = {
         design="5-C18"),
     "C19": dict(
         engine="E4-stores",
-        technique="Coq proof (precedence characterisation, print/parse and join/split round trips, app-frame iff) + in-Coq correspondence with ConfigService/GRPCService/LongPoll/is_app_frame under controlled environments",
-        text="9 Coq theorems over Config.v: resolution precedence (code > env-backed default > DEEP_<KEY> > absent, functions "
+        technique="Coq proof over functions REGENERATED from /repo/src by a fail-closed Python-ast translator (pure.py) and proved equal to the model + Coq proof (precedence characterisation, print/parse and join/split round trips, app-frame iff) + in-Coq correspondence with ConfigService/GRPCService/LongPoll/is_app_frame under controlled environments",
+        text="11 Coq theorems over Config.v: resolution precedence (code > env-backed default > DEEP_<KEY> > absent, functions "
              "called), 'same from code or environment' for the typed uses (poll interval via decimal print/parse round trip, "
              "booleans via str2bool(str(v)), prefix lists via join/split round trip, no blank prefix ever), app-frame iff "
              "and short-path law, interpreter files never app frames. Tied to the code by running the real services under "
-             "generated environments (deep.config re-imported each time) and comparing inside Coq.",
+             "generated environments (deep.config re-imported each time) and comparing inside Coq. Tie T2: is_app_frame and str2bool are translated from source on every run (coq/gen/PFrames.v, PTruth.v) and proved equal to the model's.",
         note="Trusted: Coq kernel+VM; harness; settings restricted to None/text/small naturals/bools/lists/functions; "
              "POLL_TIMER texts are decimal integers; ASCII lower-casing; prefixes contain no comma.",
         design="5-C19"),
